@@ -40,7 +40,8 @@ ALGOS = list(FIT_SAMPLERS) + list(PERSONALIZE) + ["simulate"]
 LOG_KEYS = ("print_periodicity", "save_periodicity", "plot_periodicity", "plot_patient_periodicity", "plot_sourcewise")
 PATH_MODES = ("absent", "fresh", "existing_overwrite", "existing_empty", "existing_nonempty")
 
-PRIORS = ("nothing", "rng1", "rng7", "fit_other", "personalize_other", "dtype_flip", "same_case", "same_other_seed")
+PRIORS = ("nothing", "rng1", "rng7", "fit_other", "personalize_other", "dtype_flip", "same_case", "same_other_seed",
+          "same_settings")
 
 VISITS = {
     "patient_number": 4,
@@ -234,12 +235,24 @@ def files_written(target):
     return sorted(str(p.relative_to(target)) for p in Path(target).rglob("*") if p.is_file())
 
 
-def execute(algo, model_name, seed, log=None, route="settings", variant=0):
-    """Build a fresh model + dataset, run the seeded public call, return the observation."""
+def _new_workdir():
+    for attempt in range(5):  # another process may remove the (empty) scratch root between the two calls
+        try:
+            SCRATCH.mkdir(parents=True, exist_ok=True)
+            return Path(tempfile.mkdtemp(prefix="case_", dir=str(SCRATCH)))
+        except FileNotFoundError:
+            if attempt == 4:
+                raise
+
+
+def execute(algo, model_name, seed, log=None, route="settings", variant=0, shared=None):
+    """Build a fresh model + dataset, run the seeded public call, return the observation.
+
+    ``shared``: dict carrying one AlgorithmSettings object from one call to the next (history 'same_settings')."""
     from leaspy.algo import AlgorithmSettings
     from leaspy.exceptions import LeaspyAlgoInputError
 
-    workdir = Path(tempfile.mkdtemp(prefix="case_", dir=str(SCRATCH)))
+    workdir = _new_workdir()
     cwd = os.getcwd()
     try:
         model, ds = make_model_and_data(model_name, variant)
@@ -252,9 +265,14 @@ def execute(algo, model_name, seed, log=None, route="settings", variant=0):
             stage = "settings"
             try:
                 if route == "settings":
-                    settings = AlgorithmSettings(name, **kw)
-                    if log is not None:
-                        settings.set_logs(**lkw)
+                    if shared is not None and "settings" in shared:
+                        settings = shared["settings"]
+                    else:
+                        settings = AlgorithmSettings(name, **kw)
+                        if log is not None:
+                            settings.set_logs(**lkw)
+                        if shared is not None:
+                            shared["settings"] = settings
                     call_kw = dict(algorithm_settings=settings)
                 else:  # keyword route of the public fit/personalize/simulate (settings are built inside the call)
                     call_kw = dict(algorithm=name, **kw, **lkw)
@@ -284,9 +302,9 @@ def execute(algo, model_name, seed, log=None, route="settings", variant=0):
                 import traceback
 
                 tb = traceback.extract_tb(e.__traceback__)
-                where = next((f"{Path(f.filename).name}:{f.name}" for f in reversed(tb) if "/leaspy/" in f.filename), "?")
-                return {"kind": "raise", "stage": stage, "exc": type(e).__name__, "msg": str(e)[:300], "where": where,
-                        "files": files_written(target)}
+                frames = [f"{Path(f.filename).name}:{f.name}" for f in tb if "/leaspy/" in f.filename]
+                return {"kind": "raise", "stage": stage, "exc": type(e).__name__, "msg": str(e)[:300],
+                        "where": frames[-1] if frames else "?", "frames": frames, "files": files_written(target)}
             parts = observe_result(algo, model, res)
         import matplotlib.pyplot as plt
 
@@ -337,31 +355,60 @@ def do_prior(prior, case):
         return execute(case["algo"], case["model"], case["seed"], case.get("log"), case.get("route", "settings"))
     if prior == "same_other_seed":
         return execute(case["algo"], case["model"], case["seed"] + 11, None)
+    if prior == "same_settings":
+        # one AlgorithmSettings object used for two runs (first on the other variant of the model's parameters)
+        shared = {}
+        pre = execute(case["algo"], case["model"], case["seed"], None, "settings", variant=1, shared=shared)
+        return dict(pre, shared=shared)
     raise ValueError(prior)
 
 
 def run_case(case):
     ensure_env()
     pre = do_prior(case.get("prior", "nothing"), case)
-    obs = execute(case["algo"], case["model"], case["seed"], case.get("log"), case.get("route", "settings"))
+    shared = pre.pop("shared", None) if isinstance(pre, dict) else None
+    obs = execute(case["algo"], case["model"], case["seed"], case.get("log"), case.get("route", "settings"), shared=shared)
     if isinstance(pre, dict) and pre.get("kind") == "raise" and case.get("prior") in ("fit_other", "personalize_other"):
-        obs["prior_failed"] = pre
+        obs["prior_failed"] = {k: pre[k] for k in ("exc", "msg", "where") if k in pre}
     return obs
 
 
 # ------------------------------------------------------------------------------------------
 # new interpreter
 
-def run_in_new_interpreter(cases, hashseed="0", timeout=600):
+def _spawn(cases, hashseed):
     env = dict(os.environ, PYTHONHASHSEED=str(hashseed), MPLBACKEND="Agg", OMP_NUM_THREADS="1", MKL_NUM_THREADS="1")
-    r = subprocess.run(
+    return subprocess.Popen(
         [sys.executable, "-m", "lmc.c11_lib", json.dumps(cases)],
-        cwd=str(Path(__file__).resolve().parent.parent), env=env, capture_output=True, text=True, timeout=timeout,
+        cwd=str(Path(__file__).resolve().parent.parent), env=env, stdout=subprocess.PIPE, stderr=subprocess.PIPE, text=True,
     )
-    for line in r.stdout.splitlines():
+
+
+def _collect(proc, timeout):
+    try:
+        out, err = proc.communicate(timeout=timeout)
+    except subprocess.TimeoutExpired:
+        proc.kill()
+        raise
+    for line in out.splitlines():
         if line.startswith("C11RESULT "):
             return json.loads(line[len("C11RESULT "):])
-    raise RuntimeError(f"C11 sub-interpreter failed (rc={r.returncode}):\n{r.stdout[-1500:]}\n{r.stderr[-3000:]}")
+    raise RuntimeError(f"C11 sub-interpreter failed (rc={proc.returncode}):\n{out[-1500:]}\n{err[-3000:]}")
+
+
+def run_in_new_interpreter(cases, hashseed="0", timeout=900):
+    """Run the cases one after the other in ONE new interpreter started with the given PYTHONHASHSEED."""
+    return _collect(_spawn(cases, hashseed), timeout)
+
+
+def run_in_new_interpreters(jobs, timeout=900, concurrency=3):
+    """jobs: list of (cases, hashseed); every job gets its own new interpreter (at most `concurrency` at a time)."""
+    results = [None] * len(jobs)
+    for start in range(0, len(jobs), concurrency):
+        procs = [(i, _spawn(*jobs[i])) for i in range(start, min(start + concurrency, len(jobs)))]
+        for i, p in procs:
+            results[i] = _collect(p, timeout)
+    return results
 
 
 def _main():
